@@ -432,15 +432,28 @@ def isLeaf : TExpr → Bool
   | .un _ _ | .bin _ _ _ | .tern _ _ _ _ => false
   | _ => true
 
-/-- an operand is a leaf or mentions a column (it is not a foldable constant expression) -/
-def operandOk (e : TExpr) : Bool := isLeaf e || hasCol e
+def isNullLit : TExpr → Bool
+  | .nullLit => true
+  | _ => false
+
+/-- no NULL literal as a direct operand of a NULL-propagating operator (DuckDB's binder folds such a call to a constant NULL);
+    NULL literals remain allowed as CASE / IF branches and COALESCE arguments -/
+def nullSafe : TExpr → Bool
+  | .un _ a => !isNullLit a && nullSafe a
+  | .bin k a b => (k == .coalesce || (!isNullLit a && !isNullLit b)) && nullSafe a && nullSafe b
+  | .tern _ c a b => !isNullLit c && nullSafe c && nullSafe a && nullSafe b
+  | _ => true
+
+/-- an operand is a leaf, or mentions a column and is `nullSafe` (it is not folded to a constant at bind time) -/
+def operandOk (e : TExpr) : Bool := isLeaf e || (hasCol e && nullSafe e)
 
 section
 variable (T : Tables)
 
 /-- `WellFormed`: every node is inside the domain and accepted by the engine table; columns have one of the property's types;
-    every compound operand mentions a column (DuckDB folds constant operands at bind time, and a constant that folds to NULL
-    is typed like the NULL literal by some functions whatever its declared type — outside a class-level table). -/
+    every compound operand mentions a column and has no NULL literal under a NULL-propagating operator (DuckDB folds constant
+    operands at bind time, and a constant that folds to NULL is typed like the NULL literal by some functions whatever its
+    declared type — outside a class-level table; at the root, `t.i + NULL` etc. are covered by the table). -/
 def WF : TExpr → Bool
   | .col t => colTypes.contains t
   | .intLit | .decLit | .strLit _ | .nullLit | .boolLit | .interval _ => true
